@@ -846,6 +846,14 @@ class Emitter:
                 ty = f[2][0]
                 if parts[-1] != 'max': raise EmitError('numeric_limits::%s' % parts[-1])
                 return ('VB_MAX_' + sanitize(self.ctype(ty)), ty)
+            if q in ('std::memcpy', 'memcpy'):
+                a = []
+                for x in args:
+                    t, ty = self.ex(x, cx)
+                    if ty is not None and ty.name == 'std::array' and not ty.ptr: t += '.e'
+                    a.append(t)
+                cx.calls.add('memcpy')
+                return ('memcpy(%s, %s, %s)' % tuple(a), None)
             if q == 'std::copy':
                 a = [self.ex(x, cx)[0] for x in args]
                 cx.calls.add('VB_COPY')
